@@ -83,10 +83,15 @@ func (r *retryRunner) Do(op []string) string {
 			return errScript
 		})
 		return itoa(attempts) + " " + errs(err) + " " + itoa(calls)
-	case "retrydelay":
-		// retrydelay <n> <delay ms> <script> [<attempt durations ms>]: attempt i takes durs[i] ms of (virtual) time
+	case "retrydelay", "retrydelayus":
+		// retrydelay <n> <delay ms> <script> [<attempt durations ms>]: attempt i takes durs[i] ms of (virtual) time;
+		// retrydelayus: the same with all durations and stamps in MICROseconds (sub-millisecond delays)
+		unit := time.Millisecond
+		if op[0] == "retrydelayus" {
+			unit = time.Microsecond
+		}
 		n := atoi(op[1])
-		d := time.Duration(atoi(op[2])) * time.Millisecond
+		d := time.Duration(atoi(op[2])) * unit
 		script := parseInts(op[3])
 		var durs []int
 		if len(op) > 4 {
@@ -101,11 +106,11 @@ func (r *retryRunner) Do(op []string) string {
 			if calls > 1000 {
 				panic(hangSignal{})
 			}
-			stamps = append(stamps, int(time.Since(start)/time.Millisecond))
+			stamps = append(stamps, int(time.Since(start)/unit))
 			if i < len(durs) && durs[i] > 0 {
-				time.Sleep(time.Duration(durs[i]) * time.Millisecond)
+				time.Sleep(time.Duration(durs[i]) * unit)
 			}
-			ends = append(ends, int(time.Since(start)/time.Millisecond))
+			ends = append(ends, int(time.Since(start)/unit))
 			if i < len(script) && script[i] == 0 {
 				return nil
 			}
@@ -195,5 +200,13 @@ func genC18(g *Gen) {
 			}
 		}
 		g.Emit("retry", nil, ops3)
+		// sub-millisecond delays (microsecond unit)
+		var ops4 []string
+		for i, sc := range scripts {
+			if len(sc) <= 4 {
+				ops4 = append(ops4, "retrydelayus "+itoa(n)+" "+itoa([]int{1, 250, 500, 999, 1000, 1500}[i%6])+" "+ints(sc)+" "+ints([]int{0, 300, 0, 0}))
+			}
+		}
+		g.Emit("retry", nil, ops4)
 	}
 }
